@@ -226,3 +226,19 @@ def b64(xml):
 
 def deflate_b64(xml):
     return base64.b64encode(zlib.compress(xml.encode('utf-8'))[2:-4]).decode('ascii')
+
+
+def authn_request(rid='req1', issuer=None, destination=None, acs_url=None, binding=None, version='2.0',
+                  issue_instant=None, sig='', acs_index=None, extra_attrs=''):
+    attrs = ' ID="%s" Version=%s IssueInstant="%s"' % (rid, quoteattr(version), issue_instant)
+    if destination is not None:
+        attrs += ' Destination=%s' % quoteattr(destination)
+    if acs_url is not None:
+        attrs += ' AssertionConsumerServiceURL=%s' % quoteattr(acs_url)
+    if acs_index is not None:
+        attrs += ' AssertionConsumerServiceIndex="%s"' % acs_index
+    if binding is not None:
+        attrs += ' ProtocolBinding="%s"' % binding
+    return ('<samlp:AuthnRequest xmlns:samlp="%s" xmlns:saml="%s"%s%s><saml:Issuer>%s</saml:Issuer>%s'
+            '<samlp:NameIDPolicy AllowCreate="true" Format="urn:oasis:names:tc:SAML:2.0:nameid-format:transient"/>'
+            '</samlp:AuthnRequest>' % (NS_SAMLP, NS_SAML, attrs, extra_attrs, escape(issuer), sig))
